@@ -215,7 +215,7 @@ class FastNeuronBoard:
 FAST_SWITCH_RE = re.compile(r"([-/])L:([0-9A-Fa-f]{2})")
 
 
-FAST_SA_RE = re.compile(r"SA:0E,([0-9A-Fa-f]{28})")
+FAST_SA_RE = re.compile(r"SA:0[Ee],([0-9A-Fa-f]{28})")
 
 
 def fast_classify_sa(line):
